@@ -375,6 +375,10 @@ func (r *Runner) Exec(line string) (lhs string, res string) {
 				return lhs, "bad-op"
 			}
 			m := klevdb.Message{Offset: 7777, Key: unhex(k), Value: unhex(v)}
+			if v == "!big" {
+				// one byte more than the largest body the format takes: Publish must refuse the batch as a whole
+				m.Value = make([]byte, 64*1024*1024+1)
+			}
 			if g != "z" {
 				m.Time = microTime(atoi(g))
 			}
@@ -385,7 +389,11 @@ func (r *Runner) Exec(line string) (lhs string, res string) {
 		var sb strings.Builder
 		fmt.Fprintf(&sb, "pub %d", len(msgs))
 		for i, m := range msgs {
-			fmt.Fprintf(&sb, " %s:%d:%s:%s", given[i], m.Time.UnixMicro(), hex.EncodeToString(m.Key), hex.EncodeToString(m.Value))
+			val := hex.EncodeToString(m.Value)
+			if len(m.Value) > 64*1024*1024 {
+				val = "!big"
+			}
+			fmt.Fprintf(&sb, " %s:%d:%s:%s", given[i], m.Time.UnixMicro(), hex.EncodeToString(m.Key), val)
 		}
 		lhs = sb.String()
 		if err != nil {
